@@ -252,14 +252,38 @@ func sliceField(k *hdkeychain.ExtendedKey, name string) []byte {
 	return *(*[]byte)(unsafe.Pointer(f.UnsafeAddr()))
 }
 
-// allSliceFields reads every []byte field of the real key by position.
+// allSliceFields reads, by position, every buffer reachable from the real
+// key's fields that can hold key material: []byte fields, word slices, and
+// the word buffers of *big.Int / big.Int fields (a memoised scalar).
 func allSliceFields(k *hdkeychain.ExtendedKey) map[string][]byte {
 	out := map[string][]byte{}
 	v := reflect.ValueOf(k).Elem()
+	words := func(name string, b *big.Int) {
+		if b == nil {
+			return
+		}
+		w := b.Bits()
+		if len(w) == 0 {
+			return
+		}
+		w = w[:cap(w)]
+		out[name+" (big.Int words)"] = unsafe.Slice((*byte)(unsafe.Pointer(&w[0])), len(w)*int(unsafe.Sizeof(w[0])))
+	}
 	for i := 0; i < v.NumField(); i++ {
 		f := v.Field(i)
-		if f.Kind() == reflect.Slice && f.Type().Elem().Kind() == reflect.Uint8 {
-			out[v.Type().Field(i).Name] = *(*[]byte)(unsafe.Pointer(f.UnsafeAddr()))
+		name := v.Type().Field(i).Name
+		switch {
+		case f.Kind() == reflect.Slice && f.Type().Elem().Kind() == reflect.Uint8:
+			out[name] = *(*[]byte)(unsafe.Pointer(f.UnsafeAddr()))
+		case f.Kind() == reflect.Slice && (f.Type().Elem().Kind() == reflect.Uint || f.Type().Elem().Kind() == reflect.Uint64 || f.Type().Elem().Kind() == reflect.Uint32 || f.Type().Elem().Kind() == reflect.Uintptr):
+			if f.Len() > 0 {
+				n := f.Len() * int(f.Type().Elem().Size())
+				out[name+" (words)"] = unsafe.Slice((*byte)(unsafe.Pointer(f.Pointer())), n)
+			}
+		case f.Type() == reflect.TypeOf((*big.Int)(nil)):
+			words(name, *(**big.Int)(unsafe.Pointer(f.UnsafeAddr())))
+		case f.Type() == reflect.TypeOf(big.Int{}):
+			words(name, (*big.Int)(unsafe.Pointer(f.UnsafeAddr())))
 		}
 	}
 	return out
